@@ -1,6 +1,7 @@
 package main
 
 import (
+	"os"
 	"sort"
 	"regexp/syntax"
 	"regexp"
@@ -127,17 +128,30 @@ func init() {
 	})
 	reg(rt+"Bound", func(ex *Exec, fn *ssa.Function, args []Value, site string) Value {
 		v := args[1].(int64)
-		if ex.sh.cfg.Tier == "thorough" {
+		if args[2].(int64) != v {
+			ex.res.hasDeeper = true
+		}
+		if ex.curH.Deep {
 			v = args[2].(int64)
+		}
+		// experiments only (not used by the registered commands): VERIF_BOUNDS="NM=3,LH=1"
+		for _, kv := range strings.Split(os.Getenv("VERIF_BOUNDS"), ",") {
+			if k, val, ok := strings.Cut(kv, "="); ok && k == args[0].(string) {
+				if n, err := strconv.ParseInt(val, 10, 64); err == nil {
+					v = n
+				}
+			}
 		}
 		ex.bounds[args[0].(string)] = v
 		return v
 	})
 	reg(rt+"Thorough", func(ex *Exec, fn *ssa.Function, args []Value, site string) Value {
-		return ex.sh.cfg.Tier == "thorough"
+		ex.res.hasDeeper = true
+		return ex.curH.Deep
 	})
 	reg(rt+"ThoroughOnly", func(ex *Exec, fn *ssa.Function, args []Value, site string) Value {
-		if ex.sh.cfg.Tier != "thorough" {
+		ex.res.hasDeeper = true
+		if !ex.curH.Deep {
 			panic(pathAbort{"skipped: thorough only"})
 		}
 		return nil
